@@ -122,6 +122,36 @@ def run(prop, tier, seed):
                         continue
                     ssum = math.fsum(M0("quad").linform(fac.get(p))[0] for p in ps)
                     recs.append({"cls": "%s:%s:additivity:%s" % (name, tcls, kind), "dev": jd.dev(ssum, vals["quad"], 1e-6 * max(abs(vals["quad"]), 1e-3 * abs(vals.get("one", 1.0)))), "elem": list(e)})
+        # very thin early slabs of a mesh graded towards t = 0 (custom tensor initial time mesh): [0, 2^-k], [2^-k, 2^-(k-1)]
+        from src import parametrization as pz
+        from src.mesh import MeshParametrized
+        for kk in ((12, 27, 30) if quick else (8, 12, 16, 20, 24, 26, 27, 28, 30, 33)):
+            with contextlib.redirect_stdout(io.StringIO()):
+                tm = MeshParametrized(getattr(pz, name)(), initial_time_mesh=[0.0, 2.0 ** -kk, 2.0 ** -(kk - 1), 1.0])
+                opsk = {key: InitialOperator(bdr_mesh=tm, u0=(sine if key == "sine" else data[key]), initial_mesh=IM[name]) for key in ("one", "sine")}
+            for slab in (0, 1):
+                t0 = [0.0, 2.0 ** -kk][slab]
+                side_i = rng.randrange(len(sh.pieces))
+                cand = [e for e in tm.leaf_elements if e.time_interval[0] == t0 and abs(e.space_interval[0] - sh.starts[side_i] * sh.unit / sh.U) < 1e-12]
+                if not cand:
+                    cand = [e for e in tm.leaf_elements if e.time_interval[0] == t0]
+                E = cand[0]
+                with contextlib.redirect_stdout(io.StringIO()):
+                    while E.h_x > 1.0 + 1e-12 or E.h_x ** 2 / E.h_t > 32:
+                        E = tm.refine_space(E)[rng.randrange(2)]
+                a, b = E.space_interval
+                p0, p1 = np.asarray(E.gamma_space(a)).flatten(), np.asarray(E.gamma_space(b)).flatten()
+                for key in ("one", "sine"):
+                    u = sine if key == "sine" else data[key]
+                    cls = "%s:thin-early-slab:%s:%s" % (name, "a=0" if slab == 0 else "a>0", key)
+                    try:
+                        v = opsk[key].linform(E)[0]
+                    except Exception as ex:
+                        recs.append({"cls": cls, "ok": False, "exc": repr(ex)[:120], "k": kk})
+                        continue
+                    ref = mr.element_integral(name, u, *E.time_interval, p0, p1)
+                    recs.append({"cls": cls, "dev": jd.dev(v, ref, 1e-5 * abs(ref)), "value": repr(float(v)), "ref": repr(ref), "time_level": kk,
+                                 "elem_float": [list(map(float, E.time_interval)), list(map(float, E.space_interval))]})
         # pointwise evaluation through the domain quadrature, t >= 0.05 side^2
         side = sidew[name] * (2 if name == "LShape" else 1)
         for key in ("one", "sine", "quad"):
